@@ -12,6 +12,7 @@ import (
 	"fmt"
 	"reflect"
 	"strings"
+	"sync"
 )
 
 // AttributeName converts an Object to a string, raising a TypeError
@@ -418,6 +419,33 @@ func Repr(self Object) (Object, error) {
 		return res, err
 	}
 	return String(fmt.Sprintf("<%s instance at %p>", self.Type().Name, self)), nil
+}
+
+// Containers whose repr is being computed, so that a container which
+// (directly or indirectly) contains itself is shown as "[...]" instead
+// of recursing until the stack overflows (like Py_ReprEnter).
+var reprActive = struct {
+	sync.Mutex
+	m map[interface{}]int
+}{m: map[interface{}]int{}}
+
+// reprEnter notes that the repr of the container identified by key
+// (a pointer) has started.  It returns true if it was already under way.
+func reprEnter(key interface{}) bool {
+	reprActive.Lock()
+	defer reprActive.Unlock()
+	if reprActive.m[key] > 0 {
+		return true
+	}
+	reprActive.m[key]++
+	return false
+}
+
+// reprLeave undoes reprEnter
+func reprLeave(key interface{}) {
+	reprActive.Lock()
+	defer reprActive.Unlock()
+	delete(reprActive.m, key)
 }
 
 // DebugRepr - see Repr but returns the repr or error as a string
